@@ -6,18 +6,18 @@ def cases(tier):
     cs = []
     for cfg in (0, 1):
         for op in range(5): cs.append({'CFG': cfg, 'MODE': 0, 'OP': op, 'K': 0})
-        cs.append({'CFG': cfg, 'MODE': 1, 'OP': 0, 'K': 3 if tier == 'quick' else 5})
+        cs.append({'CFG': cfg, 'MODE': 1, 'OP': 0, 'K': 3 if tier == 'quick' else 4})
     for op in range(11): cs.append({'CFG': 2, 'MODE': 2, 'OP': op, 'K': 0})
     return cs
 
 PROPERTY = Property(
     'C26',
-    [Harness('c26_wl', WL, 'harness/c26_wl.c', cases, unwind=10, timeout=900,
+    [Harness('c26_wl', WL, 'harness/c26_wl.c', cases, unwind=10, timeout=2400,
              description='software white list: inductive step from every state satisfying the representation invariant and bounded histories from construction against a set model; radio backed list: 1:1 forwarding',
-             bounds='list sizes 3 and 1; all 6-byte addresses and both address types symbolic; step: every state with 0..N distinct entries, arbitrary garbage in unused slots; histories of 3 (quick) / 5 (thorough) symbolic operations from construction')],
+             bounds='list sizes 3 and 1; all 6-byte addresses and both address types symbolic; step: every state with 0..N distinct entries, arbitrary garbage in unused slots; histories of 3 (quick) / 4 (thorough) symbolic operations from construction')],
     functions=['white_list_implementation<Size,true,...>::add_to_white_list / remove_from_white_list / is_in_white_list / clear_white_list / white_list_free_size / connection_request_filter / scan_request_filter / is_connection_request_in_filter / is_scan_request_in_filter',
                'white_list_implementation<Size,false,Radio,LinkLayer> (all members)', 'device_address::operator=='],
-    bounds='N = 3 and N = 1; every operation from every representable state satisfying the invariant (covers histories of any length by induction) plus histories up to 5 operations from construction',
+    bounds='N = 3 and N = 1; every operation from every representable state satisfying the invariant (covers histories of any length by induction) plus histories up to 4 operations from construction',
     assumptions=['representation invariant of the software list: free_size_ <= N and the N - free_size_ stored entries are pairwise distinct (established by construction, re-established by every operation: checked)',
                  'radio backed list: the radio functions are a contract-free stub (arbitrary results); only the forwarding is decided, no radio in the repository implements them'],
     explanation='the set semantics are decided by an inductive step: arbitrary state under the invariant, one arbitrary operation with arbitrary address, result and post-state compared with a mathematical set; the filters accept exactly when filtering is off or the address is a member',
